@@ -253,10 +253,13 @@ def callMethod {V : Type} [Val V] (d : Decl V) (obs : Bool) (act : Action V) (st
       | some c => (some { c with value := Val.add c.value amount }, .ok)    -- self._value.inc(amount)
       | none => (st, .raised .attributeError)
   | .counter, .reset =>
-    -- `self._raise_if_not_observable()` only if the source has it as first statement (finding F7: it has not)
+    -- `self._raise_if_not_observable()` when the source has it as first statement (the repair of finding F7)
     if counterResetChecksObservable && !obs then (st, .raised .valueError)
     else match st with
-      | some c => (some { c with value := Val.zero }, .ok)           -- self._value.set(0)
+      -- self._value.set(0.0).  Were the literal the int `0` (`resetStoresFloat = false`) the cell would hold a Python
+      -- int — written `Val.ofNat 0`, which no law identifies with the float zero — and later int amounts would be
+      -- added exactly, not in floating point.
+      | some c => (some { c with value := if resetStoresFloat then Val.zero else Val.ofNat 0 }, .ok)
       | none => (st, .raised .attributeError)
   -- Gauge (multiprocess_mode 'all': `_is_most_recent` is False)
   | .gauge, .inc amount =>
